@@ -16,3 +16,7 @@ pub use debug::Arena;
 pub(crate) use pool::PoolSet;
 pub use scratch::{ScratchArena, init, scratch_arena};
 pub use string::ArenaString;
+#[cfg(feature = "verif")]
+pub use bump::Arena as BumpArena;
+#[cfg(feature = "verif")]
+pub use pool::verif as pool_verif;
